@@ -349,3 +349,78 @@ func TestSecondaryIndices_MultipleKeysForSameIdx(t *testing.T) {
 	assert.NoError(t, kvFactory.Close())
 	assert.NoError(t, walFactory.Close())
 }
+
+func TestSecondaryIndices_GetStaysInsideTheIndex(t *testing.T) {
+	var shard int64 = 1
+
+	kvFactory, _ := kv.NewPebbleKVFactory(testKVOptions)
+	walFactory := newTestWalFactory(t)
+
+	lc, _ := NewLeaderController(Config{}, constant.DefaultNamespace, shard, newMockRpcClient(), walFactory, kvFactory)
+	_, _ = lc.NewTerm(&proto.NewTermRequest{Shard: shard, Term: 1})
+	_, _ = lc.BecomeLeader(context.Background(), &proto.BecomeLeaderRequest{
+		Shard:             shard,
+		Term:              1,
+		ReplicationFactor: 1,
+		FollowerMaps:      nil,
+	})
+
+	// Index names that are adjacent in the key space
+	_, err := lc.WriteBlock(context.Background(), &proto.WriteRequest{
+		Shard: &shard,
+		Puts: []*proto.PutRequest{
+			{Key: "p1", Value: []byte("0"), SecondaryIndexes: []*proto.SecondaryIndex{{IndexName: "i", SecondaryKey: "b"}}},
+			{Key: "p2", Value: []byte("0"), SecondaryIndexes: []*proto.SecondaryIndex{{IndexName: "i2", SecondaryKey: "a"}}},
+			{Key: "p3", Value: []byte("0"), SecondaryIndexes: []*proto.SecondaryIndex{{IndexName: "j", SecondaryKey: "c"}}},
+		},
+	})
+	assert.NoError(t, err)
+
+	get := func(index string, key string, cmp proto.KeyComparisonType) *proto.GetResponse {
+		ch := make(chan *entity.TWithError[*proto.GetResponse], 10)
+		lc.Read(context.Background(), &proto.ReadRequest{Shard: &shard, Gets: []*proto.GetRequest{
+			{Key: key, ComparisonType: cmp, SecondaryIndexName: pb.String(index)}}},
+			concurrent.ReadFromStreamCallback(ch))
+		res := <-ch
+		assert.NoError(t, res.Err)
+		return res.T
+	}
+
+	for _, test := range []struct {
+		index    string
+		key      string
+		cmp      proto.KeyComparisonType
+		expected string // primary key, "" when not found
+	}{
+		{"i", "c", proto.KeyComparisonType_CEILING, ""},
+		{"i", "b", proto.KeyComparisonType_HIGHER, ""},
+		{"i", "c", proto.KeyComparisonType_EQUAL, ""},
+		{"i", "c", proto.KeyComparisonType_FLOOR, "p1"},
+		{"i", "b", proto.KeyComparisonType_FLOOR, "p1"},
+		{"i", "b", proto.KeyComparisonType_LOWER, ""},
+		{"i", "a", proto.KeyComparisonType_CEILING, "p1"},
+		{"i2", "b", proto.KeyComparisonType_CEILING, ""},
+		{"i2", "a", proto.KeyComparisonType_HIGHER, ""},
+		{"i2", "0", proto.KeyComparisonType_FLOOR, ""},
+		{"i2", "a", proto.KeyComparisonType_LOWER, ""},
+		{"i2", "z", proto.KeyComparisonType_LOWER, "p2"},
+		{"j", "b", proto.KeyComparisonType_FLOOR, ""},
+		{"j", "c", proto.KeyComparisonType_LOWER, ""},
+		{"j", "c", proto.KeyComparisonType_HIGHER, ""},
+		{"j", "d", proto.KeyComparisonType_FLOOR, "p3"},
+		{"h", "a", proto.KeyComparisonType_CEILING, ""},
+		{"k", "z", proto.KeyComparisonType_FLOOR, ""},
+	} {
+		res := get(test.index, test.key, test.cmp)
+		if test.expected == "" {
+			assert.Equal(t, proto.Status_KEY_NOT_FOUND, res.Status, "%v", test)
+		} else {
+			assert.Equal(t, proto.Status_OK, res.Status, "%v", test)
+			assert.Equal(t, test.expected, res.GetKey(), "%v", test)
+		}
+	}
+
+	assert.NoError(t, lc.Close())
+	assert.NoError(t, kvFactory.Close())
+	assert.NoError(t, walFactory.Close())
+}
